@@ -133,9 +133,10 @@ def run(ctx):
                   parsed = outcome(TR.ControlBlock.parse, raw)
                   reser = outcome(parsed[1].serialize) if parsed[0] == "ok" else ("raise", b"")
                   ext = outcome(lambda: parsed[1].external_pubkey(lf.tap_script)) if parsed[0] == "ok" else ("raise", None)
+                  same_obj = outcome(lambda: (parsed[1] == cb[1]) and not (parsed[1] != cb[1])) if parsed[0] == "ok" else ("raise", False)
                   lc = dict(base)
                   lc.update({"id": "%s.l%d" % (kid, k), "kind": "leafcb", "hr": hr, "lf": {"leaf": True, "ver": lf.tapleaf_version, "script": B(lf.tap_script.raw_serialize())},
-                             "cb": B(raw), "parse_ok": parsed[0] == "ok", "reser": B(reser[1]) if reser[0] == "ok" else [],
+                             "cb": B(raw), "parse_ok": parsed[0] == "ok", "parsed_equals_built": same_obj == ("ok", True), "reser": B(reser[1]) if reser[0] == "ok" else [],
                              "ext_x": B(ext[1].xonly()) if ext[0] == "ok" else [], "ext_parity": ext[1].parity if ext[0] == "ok" else -1})
                   cases.append(lc)
                   ctx.nontriv(("leafcb", n, (len(raw) - 33) // 32, lf.tapleaf_version))
